@@ -4,6 +4,7 @@ import XModel.Unique
 import XModel.Acyclic
 import XModel.ManagerC13
 import XModel.ManagerFn
+import XModel.ManagerC01b
 /-!
 # C01 — expression-defined locations always equal their definition on current data
 
@@ -84,6 +85,29 @@ theorem C01_set_value_function_tasks (sched : Sched) (s : MState) (p : Path) (v 
 theorem C01_function_scope_test_sound (s : MState) (hi : MInv s) (p : Path) (h : scopeFB s p = true) : ScopeF s p :=
   scopeFB_sound s hi p h
 
+/-- **"independent of the order in which the definitions were made"**: two good runs from the same state that end with
+    the same definitions (listed in a dependency order `ord`) and the same values at the plainly assigned locations `P`
+    end with the same container tree, whatever the order of their calls and the schedulers used.  (A tree in which every
+    definition holds is determined by the definitions, the plain values and what was never written:
+    `Manager.unique_store`, from the normal form of `XModel/StoreNF.lean`.) -/
+theorem C01_order_independent (sched1 sched2 : Sched) (s : MState) (cs1 cs2 : List Call) (hi : MInv s) (hc : Consistent s)
+    (hk1 : ∀ c ∈ cs1, (∃ p v, c = .setValue p v) ∨ (∃ p e, c = .setExpr p e) ∨ c = .cleanup ∨ c = .verify ∨ c = .refresh)
+    (hk2 : ∀ c ∈ cs2, (∃ p v, c = .setValue p v) ∨ (∃ p e, c = .setExpr p e) ∨ c = .cleanup ∨ c = .verify ∨ c = .refresh)
+    (hg1 : GoodRun sched1 s cs1) (hg2 : GoodRun sched2 s cs2)
+    (P : List Path) (ord : List ETask)
+    (hd : ∀ t ∈ s.defs, t.id ∈ P ++ ord.map (·.target))
+    (ha1 : ∀ p ∈ assigned cs1, p ∈ P ++ ord.map (·.target)) (ha2 : ∀ p ∈ assigned cs2, p ∈ P ++ ord.map (·.target))
+    (hW : Family (P ++ ord.map (·.target))) (hne : ∀ w ∈ P ++ ord.map (·.target), w ≠ [])
+    (hex : AllExist (P ++ ord.map (·.target)) s.store)
+    (hdefs1 : ∀ t ∈ ord, ∃ d ∈ (applyAll sched1 s cs1).defs, toE d = t)
+    (hdefs2 : ∀ t ∈ ord, ∃ d ∈ (applyAll sched2 s cs2).defs, toE d = t)
+    (hP : ∀ p ∈ P, get (applyAll sched1 s cs1).store p = get (applyAll sched2 s cs2).store p)
+    (hord : ∀ pre t post, ord = pre ++ t :: post → ∀ r ∈ leafRefs t.expr, canonPath r ∧
+      ((∀ w ∈ P ++ ord.map (·.target), Incomparable w r) ∨ (∃ p ∈ P, ∃ q, r = p ++ q) ∨
+       ∃ u ∈ pre, ∃ q, r = u.target ++ q)) :
+    (applyAll sched1 s cs1).store = (applyAll sched2 s cs2).store :=
+  order_independent sched1 sched2 s cs1 cs2 hi hc hk1 hk2 hg1 hg2 P ord hd ha1 ha2 hW hne hex hdefs1 hdefs2 hP hord
+
 /-- **all histories** of in-scope, completed assignments and maintenance calls -/
 theorem C01_histories (sched : Sched) (cs : List Call) (s : MState) (hi : MInv s) (hc : Consistent s)
     (hg : GoodRun sched s cs) : Consistent (applyAll sched s cs) :=
@@ -119,6 +143,14 @@ example : goodRunB id s0 hist = true := by decide
 theorem example_consistent : Consistent (applyAll id s0 hist) :=
   C01_decided id hist s0 s0_inv (fun _ h => by cases h) (by decide)
 example : get (applyAll id s0 hist).store de = .ok (.int 42) := rfl
+
+/-! consumer-before-producer: `e = c * a` defined before `c = a + b`, and the other way round -/
+def histAB : List Call := [.setExpr dc (.bin "Add" (.ref da) (.ref db)), .setExpr de (.bin "Mul" (.ref dc) (.ref da)), .setValue da (.int 5)]
+def histBA : List Call := [.setValue da (.int 5), .setExpr de (.bin "Mul" (.ref dc) (.ref da)), .setExpr dc (.bin "Add" (.ref da) (.ref db))]
+def s0' : MState :=
+  { MState.init with store := .dict [(.str "d", .dict [(.str "a", .int 1), (.str "b", .int 2), (.str "c", .int 0), (.str "e", .int 0)])] }
+example : goodRunB id s0' histAB = true ∧ goodRunB id s0' histBA = true := by decide
+example : (applyAll id s0' histAB).store = (applyAll id s0' histBA).store := rfl
 
 /-! a function task `#F : e := c * 2 ; f := a + 1` next to the definition `c = a + b` -/
 def df : Path := [.item (.str "d"), .item (.str "f")]
